@@ -44,13 +44,13 @@ Lemma iread1_spec disk h f h' r : Rinv disk h -> iread1 ch disk h f = (h', r) ->
   | None => r = RdUnsup
   | Some (v, p') =>
     Rinv disk h' /\ pos h' = p' /\ same_frame h h' /\
-    (r = RdV v \/ (r = RdErr /\ v = VNil /\ f = FNum))
+    (r = RdV v \/ (r = RdErr /\ v = VNil /\ f = FNum /\ exists n, scan_num (rest disk (pos h)) = NBad n))
   end.
 Proof.
   intros I E. pose proof I as (I0 & I1 & I2).
   assert (FU : (length (rem disk h) < S (length (rbuf h) + length disk))%nat).
   { pose proof (rem_length_le disk h). lia. }
-  unfold s_read1. rewrite I1. destruct f as [n| | |]; cbn [iread1] in E.
+  unfold s_read1. rewrite !I1. destruct f as [n| | |]; cbn [iread1] in E.
   - (* count *)
     destruct (n <? 0) eqn:N0; [injection E as <- <-; reflexivity|].
     destruct (n =? 0) eqn:N1.
@@ -97,7 +97,7 @@ Proof.
       (pose proof NA as (_ & _ & P0 & _ & _ & SF);
        split; [eapply adv_by_Rinv; eauto|]; split; [exact P0|]; split; [exact SF|]).
     + left; reflexivity.
-    + right; auto.
+    + right. split; [reflexivity|]. split; [reflexivity|]. split; [reflexivity|]. exists n; reflexivity.
     + left; reflexivity.
 Qed.
 
@@ -118,7 +118,7 @@ Proof.
     pose proof (iread1_spec disk h f h1 r1 I E1) as SP.
     destruct (s_read1 true disk (pos h) f) as [[v p1]|].
     2:{ injection ES as <- <-. congruence. }
-    destruct SP as (I1 & P1 & SF & [->|(-> & _ & ->)]); [|discriminate].
+    destruct SP as (I1 & P1 & SF & [->|(-> & _ & -> & _)]); [|discriminate].
     destruct v.
     + injection EI as <- <-. injection ES as <- <-. auto.
     + subst p1. destruct (IH h1 _ _ _ _ _ NN' I1 EI ES NU) as (? & ? & ? & SF2).
@@ -143,7 +143,7 @@ Proof.
     pose proof (iread1_spec disk h f h1 r1 I E1) as SP.
     destruct (s_read1 true disk (pos h) f) as [[v p1]|].
     2:{ injection ES as <- <-. congruence. }
-    destruct SP as (I1 & P1 & SF & [->|(-> & -> & ->)]).
+    destruct SP as (I1 & P1 & SF & [->|(-> & -> & -> & _)]).
     + destruct v.
       * injection EI as <- <-. injection ES as <- <-. split; [left; reflexivity|auto].
       * subst p1. destruct (ireads_nonum disk fs h1 _ _ _ _ _ NF I1 EI ES NU) as (-> & ? & ? & SF2).
@@ -387,7 +387,7 @@ Proof.
     destruct (abandon_abs d1 h1 IV1) as (E2 & O2 & AV2 & W2 & G1 & G2 & G3 & G4).
     assert (P2 : pending (abandon h1) = []) by (unfold pending in *; rewrite W2; exact P1).
     pose proof (abs_view_nopending d1 (abandon h1) P2) as AVN.
-    assert (PO : pos (abandon h1) = ofs (abandon h1)) by (unfold pos; rewrite E2; len0g; lia).
+    assert (PO : pos (abandon h1) = ofs (abandon h1)) by (unfold pos; rewrite E2; len0g; apply Z.sub_0_r).
     assert (AVh : abs_view disk h = (d1, ofs (abandon h1))) by (rewrite <- AV1, <- AV2, AVN, PO; reflexivity).
     assert (AC : abs_content disk h = d1) by (unfold abs_content; rewrite AVh; reflexivity).
     assert (AP : abs_pos disk h = ofs (abandon h1)) by (unfold abs_pos; rewrite AVh; reflexivity).
@@ -406,8 +406,8 @@ Proof.
       assert (P3 : pending h3 = []) by exact P2.
       assert (E3 : rbuf h3 = []) by exact E2.
       assert (AV3 : abs_view d1 h3 = (d1, np)).
-      { rewrite (abs_view_nopending d1 h3 P3). unfold pos. rewrite E3; len0g. cbn. f_equal. lia. }
-      split; [apply Inv_nobuf; [exact E3|cbn; lia|exact NW2|intros _; exact P3]|].
+      { rewrite (abs_view_nopending d1 h3 P3). unfold pos. rewrite E3; len0g. cbn. f_equal. apply Z.sub_0_r. }
+      split; [apply Inv_nobuf; [exact E3|cbn; apply Z.ltb_ge; exact NEG|exact NW2|intros _; exact P3]|].
       split; [intros _; exact P3|].
       split; [unfold abs_content; rewrite AV3; reflexivity|].
       split; [|left; reflexivity].
